@@ -4,4 +4,5 @@ import Mimic.Cursor
 import Mimic.Wire
 import Mimic.Results
 import Mimic.ResultsTables
+import Mimic.Params
 import Mimic.Drv
